@@ -170,6 +170,22 @@ func c02(r *hx.Run) {
 							fmt.Sprintf("operations %v (all batched under protocol version 0) resolve differently when a second protocol version is in force from time 2\n  one version : %s\n  two versions: %s", placedDesc(placed), got, got2), nil)
 					}
 				}
+				if mode == 0 && (order[0] == 0 || order[0] == n-1) {
+					// source independence: each published operation in turn reaches the processor through WithAdditionalOperations
+					// instead of the store (the observer may not have stored it yet); the set of anchored operations is the same
+					for k := 0; k < n; k++ {
+						if !ordered[k].Published {
+							continue
+						}
+						rmA, errA := c02ResolveMoved(client, pool.Suffix, ordered, k)
+						r.Eval()
+						if gotA := ProjectImpl(rmA, errA); gotA != got {
+							r.Violation(fmt.Sprintf("source-dependence:shape=%s:%s", strings.Join(sh.ops, "+"), diffFields(gotA, got)), fmt.Sprintf("%s|moved=%d", caseID, k),
+								fmt.Sprintf("operations %v (store order %v): the result changes when operation %d is passed through WithAdditionalOperations instead of the store\n  all stored: %s\n  one moved : %s", placedDesc(placed), order, k, got, gotA), nil)
+							break
+						}
+					}
+				}
 				if got != model {
 					r.Violation(fmt.Sprintf("order-dependence:shape=%s:%s", strings.Join(sh.ops, "+"), diffFields(got, model)), caseID,
 						fmt.Sprintf("operations %v returned by the store in order %v (mode %d)\n  impl : %s\n  model: %s", placedDesc(placed), order, mode, got, model),
@@ -353,6 +369,30 @@ func c02Place(pool *fx.Pool, id string, c Coord) fx.Placed {
 		id = strings.TrimSuffix(id, "/u")
 	}
 	return fx.Placed{Op: pool.Get(id), Time: c.T, Num: c.N, Published: pub}
+}
+
+// c02ResolveMoved resolves with the k-th operation delivered through WithAdditionalOperations and all others through the stores.
+func c02ResolveMoved(client protocol.Client, suffix string, placed []fx.Placed, k int) (*protocol.ResolutionModel, error) {
+	var pub fx.SliceStore
+	var unpub unpubStore
+	var add []*operation.AnchoredOperation
+	for i, pl := range placed {
+		ao := pl.Anchored(suffix)
+		switch {
+		case i == k:
+			add = append(add, ao)
+		case pl.Published:
+			pub = append(pub, ao)
+		default:
+			unpub = append(unpub, ao)
+		}
+	}
+	var popts []processor.Option
+	if len(unpub) > 0 {
+		popts = append(popts, processor.WithUnpublishedOperationStore(unpub))
+	}
+	p := processor.New("verif", pub, client, popts...)
+	return p.Resolve(suffix, document.WithAdditionalOperations(add))
 }
 
 func c02Resolve(client protocol.Client, suffix string, placed []fx.Placed, mode int) (*protocol.ResolutionModel, error) {
